@@ -12,6 +12,11 @@ open Emitter Emitter.Cipher Emitter.License
 /-- `xteaSum` is `delta * rounds` (the comment in xtea.go says "should be") -/
 theorem fact_xtea_sum : xteaSum = UInt32.ofNat xteaRounds * xteaDelta := xteaSum_eq
 
+/-- the decode table built by `init()` maps exactly the 64 alphabet characters to their index
+and every other byte value (all 192 of them) to the invalid marker -/
+theorem fact_decode_table : ∀ c : Fin 256, decodeMap (UInt8.ofNat c.val) = decodeMapSpec (UInt8.ofNat c.val) := by
+  decide +kernel
+
 /-- the alphabet has 64 distinct characters, none of them CR/LF or a padding '=' -/
 theorem fact_alphabet : alphabet.length = 64 ∧ alphabet.Nodup ∧ (13 : UInt8) ∉ alphabet ∧ (10 : UInt8) ∉ alphabet
     ∧ (61 : UInt8) ∉ alphabet := by decide
